@@ -167,7 +167,14 @@ def _gen_vrp(stratum, rng):
         case["as_tuples"] = rng.random() < 0.5
         case["trim"] = rng.random() < 0.7  # tuples without their trailing default fields (3..8 entries)
         if rng.random() < 0.5:
-            case["vehicles"] = [(i, rng.choice([3, 6, 10, INF])) for i in range(nv)]
+            # Vehicle.id is a label, not an index: route v belongs to the v-th vehicle of the list whatever its id
+            ids = list(range(nv))
+            r = rng.random()
+            if r < 0.3:
+                rng.shuffle(ids)
+            elif r < 0.5:
+                ids = rng.sample(range(0, nv + 4), nv)
+            case["vehicles"] = [(ids[i], rng.choice([3, 6, 10, INF])) for i in range(nv)]
         if rng.random() < 0.5:
             case["weights"] = {"distance_weight": rng.choice([1.0, 0.5, 2.0]), "vehicle_weight": rng.choice([0.0, 10.0, 50.0]),
                                "tw_penalty": rng.choice([1000.0, 1.0, 0.0]), "capacity_penalty": rng.choice([1000.0, 10.0]),
@@ -243,7 +250,10 @@ def _gen_ops(stratum, rng):
     else:
         for _ in range(rng.randint(3, 16)):
             steps.append(_op_step(rng, rng.choice(DESTROY_OPS + REPAIR_OPS), nv))
-    return {"kind": "ops", "customers": cs, "vehicles": [(i, caps[i]) for i in range(nv)], "routes": routes,
+    vids = list(range(nv))
+    if rng.random() < 0.3:
+        rng.shuffle(vids)
+    return {"kind": "ops", "customers": cs, "vehicles": [(vids[i], caps[i]) for i in range(nv)], "routes": routes,
             "unassigned": sorted(unassigned), "steps": steps}
 
 
